@@ -154,6 +154,39 @@ def sec_result_apply(rep):
                     except Exception as e:  # noqa
                         ok, detail = False, repr(e)
                     rep.add(ob_eval(f"C17/{cls}Result.apply_pdf/concrete/xiR={xiR!r},xiF={xiF!r},Q2={Q2!r}/pids={npid}/grid={ng}", ok, detail=detail, inputs={} if ok else {"xiR": repr(xiR), "xiF": repr(xiF), "Q2": repr(Q2), "observed": detail}))
+    # history on ONE result object: a sequence of PDFs with different flavour content (all, some, none, all
+    # again), different PDFs and scale ratios -- every application equals the formula for ITS PDF
+    class NumPDF2(NumPDF):
+        def __init__(s, flavors, c):
+            super().__init__(flavors)
+            s.c = c
+
+        def xfxQ2(s, pid, x, Q2):
+            return s.c * NumPDF.xfxQ2(s, pid, x, Q2) + (s.c - 1) * x
+
+    for cls in ("ESF", "EXS"):
+        for pids, xgrid in (([21, 2, -1], [0.1, 0.4]), ([1], [0.3]), ([22, -2, -1, 21, 1, 2], [0.05, 0.2, 0.6])):
+            rep.cases += 1
+            orders = {k: (rng.normal(size=(len(pids), len(xgrid))), abs(rng.normal(size=(len(pids), len(xgrid))))) for k in keys}
+            r = ESFResult(0.3, 7.0, 4, orders) if cls == "ESF" else EXSResult(0.3, 7.0, 0.5, 4, orders)
+            seq = [(set(pids), 1.0, 1, 1), (set(pids[:1]), 2.0, 1, 2.0), (set(), 1.5, 2, 1), (set(pids[-1:]), 0.5, 0.5, 0.5), (set(pids), 3.0, 1, 1), (set(pids[1:]), 1.0, 1, 1)]
+            bad = []
+            try:
+                for step, (flavors, c, xiR, xiF) in enumerate(seq):
+                    pdf = NumPDF2(flavors, c)
+                    out = r.apply_pdf(pdf, pids, xgrid, a_s, a_em, xiR, xiF)
+                    exp = 0.0
+                    for o, ve in orders.items():
+                        pref = (a_s(7.0**0.5 * float(xiR)) / (4 * math.pi)) ** o[0] * a_em(7.0**0.5 * float(xiR)) ** o[1] * math.log(1 / float(xiR) ** 2) ** o[2] * math.log(1 / float(xiF) ** 2) ** o[3]
+                        exp += pref * sum(ve[0][a, j] * pdf.xfxQ2(p_, xgrid[j], 7.0 * float(xiF) ** 2) / xgrid[j] for a, p_ in enumerate(pids) if p_ in flavors for j in range(len(xgrid)))
+                    if abs(out["result"] - exp) > 1e-12 * max(1, abs(exp)):
+                        bad.append((step, sorted(flavors), out["result"], exp))
+                same = all(_np.array_equal(orders[k][0], r.orders[k][0]) for k in orders)
+                if not same:
+                    bad.append(("operator modified by apply_pdf", None, None, None))
+            except Exception as e:  # noqa
+                bad.append(("raised", repr(e), None, None))
+            rep.add(ob_eval(f"C17/{cls}Result.apply_pdf/history: one result object applied to six PDFs in a row (flavours all, one, none, last, all, all-but-first)/pids={len(pids)}/grid={len(xgrid)}", not bad, detail=str(bad[:2]), inputs={} if not bad else {"pids": str(pids), "xgrid": str(xgrid), "step, flavours of that PDF, observed, expected": str(bad[0])}))
     # Q2 not a number -> ValueError
     r = ESFResult(0.1, None, 4, {})
     try:
